@@ -234,6 +234,9 @@ func (r *RootExpr) Finalize() {
 func (m MetaExpr) Dup() MetaExpr {
 	d := make(MetaExpr, len(m))
 	for k, v := range m {
+		if v != nil {
+			v = append(make([]string, 0, len(v)), v...)
+		}
 		d[k] = v
 	}
 	return d
